@@ -3,8 +3,11 @@ from pyvc.pool import run_all
 from contracts import core_c as m
 tasks = []
 for g in m.GRAPHS: tasks.append((f"defns[{g}]", m.t_defns(g), "B"))
+for g in ("chain3","two_parents","linked_chain3"):
+    for at in (0,1): tasks.append((f"defns_hist[{g},{at}]", m.t_defns_history(g, at), "B"))
 for op in ("register","unregister","add_mixins"): tasks.append((f"guard[{op}]", m.t_modify_guard(op), "B"))
 for g in ("child","linked_child","chain3","two_parents","siblings"): tasks.append((f"register_frame[{g}]", m.t_register_frame(g), "B"))
+for g in ("chain3","linked_chain3"): tasks.append((f"register_frame[{g},inh]", m.t_register_frame(g,"inherited"), "B"))
 for g in ("single","child","linked_child","two_parents","chain3","siblings"): tasks.append((f"compile[{g}]", m.t_compile(g), "B"))
 for fb in (True, False):
     for wh in ("adapt", "analyze"): tasks.append((f"recovery[first={fb},{wh}]", m.t_recovery(fb, wh), "B"))
@@ -17,6 +20,13 @@ for fb in (True, False):
         for k in ks: tasks.append((f"build_failure[{callee}#{k},first={fb}]", m.t_build_failure(callee,k,fb), "B"))
     tasks.append((f"build_interrupt[first={fb}]", m.t_build_interrupt(fb), "B"))
 tasks.append(("trampoline", m.t_trampoline(), "B"))
+for g in ("linked_child","linked_chain3","siblings"): tasks.append((f"upfail[{g}]", m.t_update_failure(g), "B"))
+for g in ("single","child","linked_child","two_parents"):
+    for op in ("copy","variant"):
+        for lb in (False, True): tasks.append((f"copyvar[{g},{op},{lb}]", m.t_copy_variant(g, op, lb), "B"))
+for g in ("single","child","linked_child","chain3"): tasks.append((f"unregister_frame[{g}]", m.t_unregister_frame(g), "B"))
+for g in ("linked_child","linked_chain3","siblings"): tasks.append((f"compile_root[{g}]", m.t_compile(g, which="root"), "B"))
+for c_ in ("analyze_arguments","generate_dispatch"): tasks.append((f"loud[{c_}]", m.t_build_failure(c_, 1, False, clause="loud"), "B"))
 sel = sys.argv[1:] 
 for r in run_all([t for t in tasks if not sel or any(s in t[0] for s in sel)]):
     sts = {}
